@@ -169,9 +169,24 @@ loop:
 				buf := make([]byte, 4<<20)
 				stacks := string(buf[:runtime.Stack(buf, true)])
 				if c17AllBlocked(stacks) {
-					res.Hang = true
-					res.Stacks = stacks
-					break loop
+					// confirm: a deadlock is a state, not a time measurement. Two seconds later the
+					// trace must still be unchanged and every routine still blocked (a goroutine
+					// waiting in a select with a timer that is about to fire is not a deadlock)
+					time.Sleep(2 * time.Second)
+					c17TraceMu.Lock()
+					n2 := len(c17Trace)
+					c17TraceMu.Unlock()
+					stacks2 := string(buf[:runtime.Stack(buf, true)])
+					if n2 == n && c17AllBlocked(stacks2) {
+						select {
+						case o := <-done:
+							res.Ok, res.Class, res.Msg = o.Ok, o.Class, o.Msg
+						default:
+							res.Hang = true
+							res.Stacks = stacks2
+						}
+						break loop
+					}
 				}
 				last = time.Now()
 			}
@@ -225,6 +240,7 @@ type c17Stmt struct {
 	Chs  []int     `json:"chs,omitempty"`  // sel: the channels of the select, in clause order
 	Tpos []int     `json:"tpos,omitempty"` // sel: clause positions (0 = first) of time-channel clauses
 	Shrt bool      `json:"shrt,omitempty"` // sel: the time channels fire (1 ms): the select is retried
+	Tick bool      `json:"tick,omitempty"` // sel (with Shrt): the time clauses use one time-ticker shared by all routines
 	Val  string    `json:"val,omitempty"`  // push: kind of the pushed object: "" fixnum, str, list, sym, nil, t, elist
 	Body []c17Stmt `json:"b,omitempty"`
 }
@@ -513,7 +529,15 @@ func (p *c17Prog) render(b *strings.Builder, r int, ss []c17Stmt, held []int, lo
 		case "pop":
 			fmt.Fprintf(b, " (vtrace 'rv %d %d (channel-pop *ch%d*))", r, s.Ch, s.Ch)
 		case "incr":
+			// an increment outside every section (family sync) is an operation of its own: its
+			// invocation and response are recorded around it (see Model/Lin.lean)
+			if len(held) == 0 {
+				fmt.Fprintf(b, " (vtrace 'iv %d %d)", r, s.K)
+			}
 			fmt.Fprintf(b, " (let ((v %s)) (vtrace 'rd %d %d v) (vyield) %s)", p.readExpr(s.K), r, s.K, p.writeExpr(s.K, "(1+ v)"))
+			if len(held) == 0 {
+				fmt.Fprintf(b, " (vtrace 'rs %d %d)", r, s.K)
+			}
 		case "yield":
 			b.WriteString(" (vyield)")
 		case "sync":
@@ -522,7 +546,17 @@ func (p *c17Prog) render(b *strings.Builder, r int, ss []c17Stmt, held []int, lo
 		case "close":
 			fmt.Fprintf(b, " (channel-close *ch%d*)", s.Ch)
 		case "rangeall":
-			fmt.Fprintf(b, " (range (lambda (v) (vtrace 'rv %d %d v)) *ch%d*)", r, s.Ch, s.Ch)
+			// N = 0: the callback only records the item; 1: it also gives up the processor (other
+			// consumers of the channel run between two items); 2: worker of a pool, it passes the item
+			// on to channel Chs[0] (and blocks there while that channel is full)
+			extra := ""
+			if s.N >= 1 {
+				extra = " (vyield)"
+			}
+			if s.N == 2 {
+				extra += fmt.Sprintf(" (channel-push *ch%d* v)", s.Chs[0])
+			}
+			fmt.Fprintf(b, " (range (lambda (v) (vtrace 'rv %d %d v)%s) *ch%d*)", r, s.Ch, extra, s.Ch)
 		case "sel":
 			// one receive through select; clause order: channel clauses in Chs order with the
 			// time-channel clauses at the positions Tpos
@@ -536,7 +570,11 @@ func (p *c17Prog) render(b *strings.Builder, r int, ss []c17Stmt, held []int, lo
 					}
 				}
 				if isT || ci >= len(s.Chs) {
-					if s.Shrt {
+					if s.Shrt && s.Tick {
+						// the environment keeps sending on this channel (a tick goes to one of the
+						// routines selecting on it, or is dropped)
+						clauses = append(clauses, fmt.Sprintf("(*tk* tv (vtrace 'to %d))", r))
+					} else if s.Shrt {
 						clauses = append(clauses, fmt.Sprintf("((time-after 0.001) tv (vtrace 'to %d))", r))
 					} else {
 						clauses = append(clauses, fmt.Sprintf("(*to%d* tv (vtrace 'to %d))", ti%4, r))
@@ -578,6 +616,22 @@ func (p *c17Prog) render(b *strings.Builder, r int, ss []c17Stmt, held []int, lo
 			p.render(b, r, s.Body, nil, loopVar, depth)
 			b.WriteString(")")
 		case "lock":
+			// an outermost section is the operation on the counters it increments: invoked before the
+			// lock is requested, responded when the routine is past the form (not recorded when the
+			// section is left by an error: the operation stays pending)
+			var opK []int
+			if len(held) == 0 {
+				seen := map[int]bool{}
+				c17Walk(c17Expand(s.Body), func(x c17Stmt) {
+					if x.Kind == "incr" && !seen[x.K] {
+						seen[x.K] = true
+						opK = append(opK, x.K)
+					}
+				})
+				for _, k := range opK {
+					fmt.Fprintf(b, " (vtrace 'iv %d %d)", r, k)
+				}
+			}
 			if s.Ret {
 				fmt.Fprintf(b, " (block c17b%d", depth)
 			}
@@ -593,6 +647,11 @@ func (p *c17Prog) render(b *strings.Builder, r int, ss []c17Stmt, held []int, lo
 			if s.Ret {
 				b.WriteString(")")
 			}
+			if !c17EndsFailed(s.Body) {
+				for _, k := range opK {
+					fmt.Fprintf(b, " (vtrace 'rs %d %d)", r, k)
+				}
+			}
 		case "repeat":
 			v := fmt.Sprintf("i%d", depth)
 			fmt.Fprintf(b, " (dotimes (%s %d)", v, s.N)
@@ -607,11 +666,19 @@ func c17EndsFailed(ss []c17Stmt) bool {
 }
 
 func (p *c17Prog) usesLongTimers() bool {
+	return p.anyStmt(func(s c17Stmt) bool { return s.Kind == "sel" && len(s.Tpos) > 0 && !s.Shrt })
+}
+
+func (p *c17Prog) usesTicker() bool {
+	return p.anyStmt(func(s c17Stmt) bool { return s.Kind == "sel" && len(s.Tpos) > 0 && s.Shrt && s.Tick })
+}
+
+func (p *c17Prog) anyStmt(pred func(c17Stmt) bool) bool {
 	found := false
 	var walk func(ss []c17Stmt)
 	walk = func(ss []c17Stmt) {
 		for _, s := range ss {
-			if s.Kind == "sel" && len(s.Tpos) > 0 && !s.Shrt {
+			if pred(s) {
 				found = true
 			}
 			walk(s.Body)
@@ -640,6 +707,9 @@ func (p *c17Prog) source(sequential bool) string {
 	if p.usesLongTimers() {
 		// time channels that never fire during a run
 		b.WriteString("(defvar *to0* (time-after 3600))\n(defvar *to1* (time-after 7200))\n(defvar *to2* (time-after 5400))\n(defvar *to3* (time-after 9000))\n")
+	}
+	if p.usesTicker() {
+		b.WriteString("(defvar *tk* (time-ticker 0.001))\n")
 	}
 	var fs, cs, ls []string
 	hash := false
@@ -897,6 +967,43 @@ func c17Exec(bin string, procs int, src string, yieldSeed uint64, stallS int, de
 	return run
 }
 
+// c17Alone runs f while no other worker of this harness is running (set by runC17 to a version
+// that knows the worker pool; replay runs one worker at a time anyway).
+var c17Alone = func(f func()) { f() }
+
+var c17Retried atomic.Int32
+
+// a verdict that may be the machine's and not slip's: the wall-clock deadline passed, or the
+// worker disappeared without a Go fatal error / panic message (killed from outside, output cut)
+func (r *c17Run) transient() bool {
+	return r.Timeout || strings.HasPrefix(r.Death, "exit-") || r.Death == "worker-output-unreadable"
+}
+
+// c17ExecSettled = c17Exec, but a transient outcome is only believed after the same job was
+// re-run ALONE (no other worker of this harness running) with three times the deadline; what the
+// re-run shows is the outcome. Deadlocks found by the worker itself (every routine blocked, twice)
+// and Go fatal errors / panics are facts about the run, not about the load, and are not re-run.
+func c17ExecSettled(bin string, procs int, src string, yieldSeed uint64, stallS int, deadline time.Duration, race bool) *c17Run {
+	run := c17Exec(bin, procs, src, yieldSeed, stallS, deadline, race)
+	if run.transient() {
+		c17Alone(func() {
+			if c17SettledTransient.Load() {
+				// a transient outcome was already confirmed by a re-run alone: the verdict of the check
+				// is settled, further re-runs (minutes each, one at a time) cannot change it
+				return
+			}
+			c17Retried.Add(1)
+			run = c17Exec(bin, procs, src, yieldSeed, stallS, 3*deadline, race)
+			if run.transient() {
+				c17SettledTransient.Store(true)
+			}
+		})
+	}
+	return run
+}
+
+var c17SettledTransient atomic.Bool
+
 func c17ClassifyDeath(stderr string, err error) (string, string) {
 	for _, line := range strings.Split(stderr, "\n") {
 		if strings.HasPrefix(line, "fatal error: ") {
@@ -1109,7 +1216,7 @@ func c17Sel(rng *lib.Rng, chs []int, nt int, short bool) c17Stmt {
 		j := rng.Intn(i + 1)
 		perm[i], perm[j] = perm[j], perm[i]
 	}
-	s := c17Stmt{Kind: "sel", Chs: perm, Shrt: short}
+	s := c17Stmt{Kind: "sel", Chs: perm, Shrt: short, Tick: short && rng.Bool()}
 	total := len(perm) + nt
 	used := map[int]bool{}
 	for len(s.Tpos) < nt {
@@ -1164,14 +1271,39 @@ func c17GenSelect(rng *lib.Rng, maxOps int) *c17Prog {
 // family chan, shape range-close: a producer closes its channel when done, consumers range over it
 func c17GenRangeClose(rng *lib.Rng, maxOps int) *c17Prog {
 	p := &c17Prog{Family: "chan", Shape: "range-close", NoModel: true}
+	if rng.Chance(35) {
+		return c17GenRangePool(rng, maxOps)
+	}
 	ng := 1 + rng.Intn(2)
 	for g := 0; g < ng; g++ {
 		p.Caps = append(p.Caps, c17PickCap(rng))
 		r := len(p.Routines)
 		p.Routines = append(p.Routines, []c17Stmt{c17Rep(1+rng.Intn(maxOps), c17Push(g, r*1000)), {Kind: "close", Ch: g}})
-		for c := 0; c < 1+rng.Intn(3); c++ {
-			p.Routines = append(p.Routines, []c17Stmt{{Kind: "rangeall", Ch: g}})
+		nc := 1 + rng.Intn(3+(2-ng)) // 1..4 consumers on a single channel, 1..3 each on two
+		mode := rng.Intn(2)          // all callbacks of a channel plain, or all yielding
+		for c := 0; c < nc; c++ {
+			p.Routines = append(p.Routines, []c17Stmt{{Kind: "rangeall", Ch: g, N: mode}})
 		}
+	}
+	return p
+}
+
+// family chan, shape range-pool (the worker pool of the documentation of range): a producer pushes
+// jobs and closes the channel, several workers range over it and pass every job on to a small
+// results channel, a collector receives exactly as many results as jobs were pushed.
+func c17GenRangePool(rng *lib.Rng, maxOps int) *c17Prog {
+	p := &c17Prog{Family: "chan", Shape: "range-pool", NoModel: true}
+	p.Caps = []int{c17PickCap(rng), []int{0, 1, 2, 3}[rng.Intn(4)]}
+	n := 1 + rng.Intn(maxOps)
+	p.Routines = append(p.Routines, []c17Stmt{c17Rep(n, c17Push(0, 0)), {Kind: "close", Ch: 0}})
+	for w := 0; w < 1+rng.Intn(4); w++ {
+		p.Routines = append(p.Routines, []c17Stmt{{Kind: "rangeall", Ch: 0, N: 2, Chs: []int{1}}})
+	}
+	coll := []c17Stmt{c17Rep(n, c17Pop(1))}
+	if rng.Bool() {
+		p.Main = coll
+	} else {
+		p.Routines = append(p.Routines, coll)
 	}
 	return p
 }
@@ -1191,6 +1323,11 @@ func c17OddValues(rng *lib.Rng, p *c17Prog) {
 					consumers[s.Ch] = map[int]bool{}
 				}
 				consumers[s.Ch][t] = true
+				if s.Kind == "rangeall" && s.N == 2 {
+					// items are passed on to a second channel: numberless objects (identified by their
+					// position in a single consumer's sequence) stay out of such channels
+					consumers[s.Ch][-1] = true
+				}
 			case "sel":
 				for _, ch := range s.Chs {
 					if consumers[ch] == nil {
@@ -1557,18 +1694,14 @@ func c17CheckRun(c *lib.Ctx, cs *c17Case, run *c17Run, model map[string]string, 
 		if r.Top == "-" && r.Prev == "-" {
 			continue // no slip frame on either side: not about slip
 		}
-		top := r.Top
-		if top == "-" {
-			top = r.Prev
-		}
-		add("race top="+top, fmt.Sprintf("data race reported by the Go race detector: access in %s, conflicting access in %s", r.Top, r.Prev), "no race report naming slip frames")
+		add(c17RaceSig(cs.Cell, r), fmt.Sprintf("data race reported by the Go race detector: access in %s, conflicting access in %s", r.Top, r.Prev), "no race report naming slip frames")
 	}
 	switch {
 	case run.Timeout:
 		add("hang=deadline", "worker did not finish before the deadline", "program completes")
 		return out
 	case run.Death != "":
-		add(fmt.Sprintf("death=%s frame=%s", run.Death, run.Frame), "worker died: "+c17FirstLines(run.Stderr, 6), "worker exits normally")
+		add(c17DeathSig(cs.Cell, run.Death, run.Frame), fmt.Sprintf("worker died (%s, top slip frame %s): %s", run.Death, run.Frame, c17FirstLines(run.Stderr, 6)), "worker exits normally")
 		return out
 	case run.Res.Hang:
 		add("hang=stalled frame="+c17BlockedFrame(run.Res.Stacks), "no progress: "+c17FirstLines(run.Res.Stacks, 12), "program completes")
@@ -1661,11 +1794,21 @@ func c17CheckRun(c *lib.Ctx, cs *c17Case, run *c17Run, model map[string]string, 
 			}
 		})
 	}
+	// workers of a pool: (thread, channel it ranges over) -> channel it passes the items on to
+	fwd := map[[2]int]int{}
+	for t, ss := range threads {
+		for _, st := range c17Expand(ss) {
+			if st.Kind == "rangeall" && st.N == 2 && len(st.Chs) == 1 {
+				fwd[[2]int{t, st.Ch}] = st.Chs[0]
+			}
+		}
+	}
 	recv := make([]map[int][]string, nch) // channel -> consumer -> items "p.v"
 	for i := range recv {
 		recv[i] = map[int][]string{}
 	}
-	var mlog, reads, finals []string
+	var mlog, reads, finals, lin []string
+	linPending := map[[2]int64]bool{}
 	lens := map[int]int64{}
 	finalVal := map[int]int64{}
 	for _, e := range run.Res.Trace {
@@ -1691,6 +1834,16 @@ func c17CheckRun(c *lib.Ctx, cs *c17Case, run *c17Run, model map[string]string, 
 				default:
 					if prod, has := whoSent[[2]int{ch, int(num)}]; has && sentKind[[2]int{ch, int(num)}] == kind {
 						item = fmt.Sprintf("%d.%d", prod, num)
+						if to, isFwd := fwd[[2]int{int(e.A[0]), ch}]; isFwd && to < nch {
+							// the worker passes this very object on: from here on it is an item the
+							// worker sends on the results channel (recorded before the worker's push)
+							w := int(e.A[0])
+							if _, dup := whoSent[[2]int{to, int(num)}]; !dup {
+								sent[to][w] = append(sent[to][w], int(num))
+								whoSent[[2]int{to, int(num)}] = w
+								sentKind[[2]int{to, int(num)}] = kind
+							}
+						}
 						if ap, has := anonProd[ch]; has && ap == prod {
 							for j, si := range seqOf[[2]int{ch, ap}] {
 								if si.v == int(num) && j >= anonPtr[ch] {
@@ -1706,12 +1859,27 @@ func c17CheckRun(c *lib.Ctx, cs *c17Case, run *c17Run, model map[string]string, 
 			mlog = append(mlog, fmt.Sprintf("e.%d.%d", e.A[0], e.A[1]))
 		case "ex":
 			mlog = append(mlog, fmt.Sprintf("x.%d.%d", e.A[0], e.A[1]))
+		case "iv":
+			if len(e.A) >= 2 && !linPending[[2]int64{e.A[0], e.A[1]}] {
+				linPending[[2]int64{e.A[0], e.A[1]}] = true
+				lin = append(lin, fmt.Sprintf("i.%d.%d", e.A[0], e.A[1]))
+			}
+		case "rs":
+			if len(e.A) >= 2 {
+				lin = append(lin, fmt.Sprintf("r.%d.%d", e.A[0], e.A[1]))
+			}
 		case "rd":
 			v := e.A[2]
 			if v < 0 {
 				v = 999999999
 			}
 			reads = append(reads, fmt.Sprintf("%d.%d", e.A[1], v))
+			if !linPending[[2]int64{e.A[0], e.A[1]}] {
+				// no invocation on record (an increment in a nested position): invoked just now
+				lin = append(lin, fmt.Sprintf("i.%d.%d", e.A[0], e.A[1]))
+			}
+			delete(linPending, [2]int64{e.A[0], e.A[1]})
+			lin = append(lin, fmt.Sprintf("p.%d.%d.%d", e.A[0], e.A[1], v))
 		case "fin":
 			v := e.A[1]
 			if v < 0 {
@@ -1769,9 +1937,14 @@ func c17CheckRun(c *lib.Ctx, cs *c17Case, run *c17Run, model map[string]string, 
 		reqs = append(reqs, fmt.Sprintf("conc counter %s %s", r, strings.Join(finals, ",")))
 		names = append(names, "counter")
 	}
+	if len(reads) > 0 && !p.Burst && !p.Shared && !p.Defun {
+		// the whole history of increment operations (all counters): linearizable?
+		reqs = append(reqs, "conc lin "+strings.Join(lin, ","))
+		names = append(names, "lin")
+	}
 	replies := c.Model(reqs)
 	for i, rep := range replies {
-		if rep == "ok pass" {
+		if rep == "ok pass" || strings.HasPrefix(rep, "ok pass ") {
 			continue
 		}
 		what := names[i]
@@ -1781,6 +1954,21 @@ func c17CheckRun(c *lib.Ctx, cs *c17Case, run *c17Run, model map[string]string, 
 			sig = fmt.Sprintf("checker=fifo verdict=%s %s", strings.TrimPrefix(rep, "ok fail "), strings.SplitN(what, " ", 3)[2])
 		case what == "mutex":
 			sig = "checker=mutex verdict=" + strings.SplitN(strings.TrimPrefix(rep, "ok fail "), "=", 2)[0]
+		case what == "lin":
+			f := strings.Fields(strings.TrimPrefix(rep, "ok fail "))
+			kind := "-"
+			for _, x := range f {
+				if ks, ok := strings.CutPrefix(x, "k="); ok {
+					if k, err := strconv.Atoi(ks); err == nil && k < len(p.Kinds) {
+						kind = p.Kinds[k]
+					}
+				}
+			}
+			verdict := "?"
+			if len(f) > 0 {
+				verdict = f[0]
+			}
+			sig = "checker=lin verdict=" + verdict + " kind=" + kind
 		default:
 			kind := "?"
 			if f := strings.TrimPrefix(rep, "ok fail k="); f != rep {
@@ -1803,7 +1991,26 @@ func c17CheckRun(c *lib.Ctx, cs *c17Case, run *c17Run, model map[string]string, 
 			add(fmt.Sprintf("final=channel-length cap=%d", p.Caps[ch]), fmt.Sprintf("(length ch%d) = %d after all routines finished", ch, lens[ch]), "0 (pushes = pops)")
 		}
 	}
-	if model != nil && !p.Shared && !p.Defun {
+	// channels that are closed and drained by range consumers: the run of Model/Close.lean
+	// (`conc close`, Close.step under a seeded schedule) says how many items are received in all
+	// and that nothing is left; Theorems/C17Close.lean proves this for every schedule
+	for ch := 0; ch < nch; ch++ {
+		want, has := model[fmt.Sprintf("close%d.received", ch)]
+		if !has {
+			continue
+		}
+		n := 0
+		for _, l := range recv[ch] {
+			n += len(l)
+		}
+		if strconv.Itoa(n) != want {
+			add(fmt.Sprintf("model=close-received cap=%d", p.Caps[ch]), fmt.Sprintf("%d items received on ch%d by its range consumers", n, ch), "model run (close + range): "+want)
+		}
+		if l := model[fmt.Sprintf("close%d.left", ch)]; l != strconv.FormatInt(lens[ch], 10) {
+			add(fmt.Sprintf("model=close-left cap=%d", p.Caps[ch]), fmt.Sprintf("(length ch%d) = %d", ch, lens[ch]), "model run (close + range): "+l)
+		}
+	}
+	if model != nil && model["q"] != "" && !p.Shared && !p.Defun {
 		if model["finals"] != "" && model["finals"] != "-" {
 			want := strings.Split(model["finals"], ",")
 			for k, w := range want {
@@ -1836,6 +2043,84 @@ func c17CheckRun(c *lib.Ctx, cs *c17Case, run *c17Run, model map[string]string, 
 		}
 	}
 	return out
+}
+
+// ---------------------------------------------------------------------------------------------
+// signatures of the constructs that are LISTED findings. Which fatal-error class and which top
+// frame a run shows for one and the same unsynchronized table is a matter of timing (as is which
+// of the two accesses the race detector prints first), so the signature of a listed construct is
+// decided by a rule about the construct, never by the incidental frame: the sweep cell that
+// isolates the construct + the class of manifestation. Everything else keeps the detailed
+// signature (class + top frame) and is never excused.
+
+func c17HasAnyPrefix(f string, prefixes ...string) bool {
+	for _, p := range prefixes {
+		if strings.HasPrefix(f, p) {
+			return true
+		}
+	}
+	return false
+}
+
+// functions that read or update a method object (slip.Method / Combination / Lambda) in place
+func c17MethodObjectFrame(f string) bool {
+	return c17HasAnyPrefix(f, "slip.(*Method).", "slip.(*Lambda).", "slip.(*Combination).",
+		"slip/pkg/generic.addMethodCaller", "slip/pkg/generic.defGenericMethod", "slip/pkg/generic.(*Defmethod).",
+		"slip/pkg/generic.(*RemoveMethod).", "slip/pkg/generic.DefCallerMethod")
+}
+
+// the evaluator's first evaluation of a form (it stores the compiled arguments back into the form)
+func c17FirstEvalFrame(f string) bool {
+	return c17HasAnyPrefix(f, "slip.(*Function).", "slip.EvalArg", "slip.CompileList", "slip.ListToFunc", "slip.CompileArgs")
+}
+
+func c17RaceSig(cell string, r c17Race) string {
+	var known []string
+	for _, f := range []string{r.Top, r.Prev} {
+		if f != "-" {
+			known = append(known, f)
+		}
+	}
+	// at least one access is in the construct's code, the other one is too or is the creation of
+	// the object (the creator closure registered by an init function: `…pkg/xx.init`), i.e. the
+	// object reached the other routine without synchronization
+	rule := func(pred func(string) bool) bool {
+		hit := false
+		for _, f := range known {
+			switch {
+			case pred(f):
+				hit = true
+			case strings.HasSuffix(f, ".init"):
+			default:
+				return false
+			}
+		}
+		return hit
+	}
+	switch {
+	case cell == "dispatch-race" && rule(c17MethodObjectFrame):
+		return "race kind=method-object-updated-in-place"
+	case strings.HasPrefix(cell, "shared-") && rule(c17FirstEvalFrame):
+		return "race kind=first-evaluation-rewrites-shared-code"
+	}
+	top := r.Top
+	if top == "-" {
+		top = r.Prev
+	}
+	return "race top=" + top
+}
+
+// c17DeathSig: in the define-* cells (a definer of functions / classes / flavors runs while other
+// routines evaluate) the package's function, class and flavor tables are unsynchronized Go maps:
+// the runtime's concurrent-map detection (any of its three messages, in whichever function
+// touched the map), a Go runtime error inside the map code, or a routine that does not find what
+// was just defined are manifestations of that one construct.
+func c17DeathSig(cell, death, frame string) string {
+	if strings.HasPrefix(cell, "define-") &&
+		(strings.HasPrefix(death, "concurrent-map-") || death == "panic-go-runtime-error" || death == "panic-slip-condition-in-routine") {
+		return "death=definer-tables-unsynchronized"
+	}
+	return fmt.Sprintf("death=%s frame=%s", death, frame)
 }
 
 func c17SplitDash(s string) []string {
@@ -1984,7 +2269,7 @@ func c17Cells() []*c17Case {
 	}
 	// select: every position of the time-channel clauses relative to the channel clauses
 	// (three time channels or nine channels take select's general path)
-	for _, pat := range []string{"cc", "tcc", "ctc", "cct", "tctc", "tc", "ct", "ttc", "Tcc", "cTc", "ccT", "tctct", "tttc", "ccccccccc", "tccccccccc"} {
+	for _, pat := range []string{"cc", "tcc", "ctc", "cct", "tctc", "tc", "ct", "ttc", "Tcc", "cTc", "ccT", "tctct", "tttc", "ccccccccc", "tccccccccc", "Kcc", "cKc", "cK"} {
 		p := &c17Prog{Family: "chan", Shape: "select", Caps: []int{2, 0}}
 		sel := c17Stmt{Kind: "sel"}
 		ch := 0
@@ -1998,6 +2283,9 @@ func c17Cells() []*c17Case {
 			case 'T':
 				sel.Tpos = append(sel.Tpos, i)
 				sel.Shrt = true
+			case 'K':
+				sel.Tpos = append(sel.Tpos, i)
+				sel.Shrt, sel.Tick = true, true
 			}
 		}
 		if ch == 1 {
@@ -2042,6 +2330,24 @@ func c17Cells() []*c17Case {
 		p := &c17Prog{Family: "chan", Shape: "range-close", Caps: []int{3}, NoModel: true}
 		p.Routines = [][]c17Stmt{{c17Rep(150, c17Push(0, 0)), {Kind: "close", Ch: 0}}, {{Kind: "rangeall", Ch: 0}}, {{Kind: "rangeall", Ch: 0}}}
 		cells = append(cells, &c17Case{Prog: p, Cell: "range-close", Procs: []int{4}})
+	}
+	{
+		// several consumers ranging over one buffered channel that is closed by the producer; the
+		// callbacks give up the processor, so the consumers interleave item by item
+		p := &c17Prog{Family: "chan", Shape: "range-close", Caps: []int{8}, NoModel: true}
+		p.Routines = [][]c17Stmt{{c17Rep(200, c17Push(0, 0)), {Kind: "close", Ch: 0}}}
+		for w := 0; w < 4; w++ {
+			p.Routines = append(p.Routines, []c17Stmt{{Kind: "rangeall", Ch: 0, N: 1}})
+		}
+		cells = append(cells, &c17Case{Prog: p, Cell: "range-close-multi", Procs: []int{1, 2, 4, 16}})
+		// the worker pool: the callbacks block on a small results channel
+		q := &c17Prog{Family: "chan", Shape: "range-pool", Caps: []int{8, 2}, NoModel: true}
+		q.Routines = [][]c17Stmt{{c17Rep(200, c17Push(0, 0)), {Kind: "close", Ch: 0}}}
+		for w := 0; w < 4; w++ {
+			q.Routines = append(q.Routines, []c17Stmt{{Kind: "rangeall", Ch: 0, N: 2, Chs: []int{1}}})
+		}
+		q.Routines = append(q.Routines, []c17Stmt{c17Rep(200, c17Pop(1))})
+		cells = append(cells, &c17Case{Prog: q, Cell: "range-pool", Procs: []int{1, 4, 16}})
 	}
 	for _, cp := range []int{0, 1, 8} {
 		p := &c17Prog{Family: "chan", Shape: "fan", Caps: []int{cp}}
@@ -2284,13 +2590,78 @@ func c17Replay(c *lib.Ctx, self string) {
 	fmt.Println("  12 attempts passed all checks")
 }
 
+// closeModel runs Model/Close.lean for every channel of the program that is closed by a producer
+// and drained by range consumers (shapes range-close, range-pool, odd-range).
+func (p *c17Prog) closeModel(c *lib.Ctx, seed uint64) map[string]string {
+	type info struct {
+		closed    bool
+		pushes    map[int]int
+		consumers int
+	}
+	chans := map[int]*info{}
+	get := func(ch int) *info {
+		if chans[ch] == nil {
+			chans[ch] = &info{pushes: map[int]int{}}
+		}
+		return chans[ch]
+	}
+	for t, ss := range p.threads() {
+		c17Walk(c17Expand(ss), func(s c17Stmt) {
+			switch s.Kind {
+			case "push":
+				get(s.Ch).pushes[t]++
+			case "close":
+				get(s.Ch).closed = true
+			case "rangeall":
+				get(s.Ch).consumers++
+			}
+		})
+	}
+	var reqs []string
+	var chs []int
+	for ch := range p.Caps {
+		in := chans[ch]
+		if in == nil || !in.closed || in.consumers == 0 {
+			continue
+		}
+		var prods []int
+		for t := range in.pushes {
+			prods = append(prods, t)
+		}
+		sort.Ints(prods)
+		counts := make([]int, len(prods))
+		for i, t := range prods {
+			counts[i] = in.pushes[t]
+		}
+		reqs = append(reqs, fmt.Sprintf("conc close %d %d %d 4000000 %s", p.Caps[ch], in.consumers, seed%1000000007, c17Join(counts)))
+		chs = append(chs, ch)
+	}
+	out := map[string]string{}
+	for i, rep := range c.Model(reqs) {
+		m := c17ParseModel(rep)
+		if !strings.HasPrefix(rep, "ok ") || m["ended"] != strconv.Itoa(chans[chs[i]].consumers) || m["exact"] != "1" || m["left"] != "0" {
+			fmt.Fprintf(os.Stderr, "c17: close/range model run did not drain (harness bug): %s -> %s\n", reqs[i], rep)
+			os.Exit(2)
+		}
+		out[fmt.Sprintf("close%d.received", chs[i])] = m["received"]
+		out[fmt.Sprintf("close%d.left", chs[i])] = m["left"]
+	}
+	return out
+}
+
 // c17RunCase runs one program once at the given GOMAXPROCS and returns the verdicts.
 func c17RunCase(c *lib.Ctx, cs *c17Case, bin string, procs int, yieldSeed uint64) []c17Verdict {
 	p := cs.Prog
 	var model map[string]string
 	var seq map[[2]int64]string
 	if p.Family == "tables" {
-		ref := c17Exec(bin, 1, p.source(true), yieldSeed, 60, 5*time.Minute, false)
+		ref := c17ExecSettled(bin, 1, p.source(true), yieldSeed, 60, 5*time.Minute, false)
+		if ref.Timeout {
+			// the sequential reference run of a small program did not finish even when run alone with
+			// three times the limit: the machine, not slip
+			fmt.Fprintln(os.Stderr, "c17: sequential reference run timed out twice (machinery)")
+			os.Exit(2)
+		}
 		if ref.Res == nil || !ref.Res.Ok {
 			return []c17Verdict{{"family=tables sequential-reference-failed", c17FirstLines(ref.Stderr, 5) + fmt.Sprint(ref.Res), "sequential run completes"}}
 		}
@@ -2307,11 +2678,14 @@ func c17RunCase(c *lib.Ctx, cs *c17Case, bin string, procs int, yieldSeed uint64
 			os.Exit(2)
 		}
 	}
+	if p.NoModel && !p.Shared && !p.Defun {
+		model = p.closeModel(c, yieldSeed)
+	}
 	deadline := 2 * time.Minute
 	if cs.Race || p.Burst {
 		deadline = 6 * time.Minute
 	}
-	run := c17Exec(bin, procs, p.source(false), yieldSeed, 30, deadline, cs.Race)
+	run := c17ExecSettled(bin, procs, p.source(false), yieldSeed, 30, deadline, cs.Race)
 	return c17CheckRun(c, cs, run, model, seq)
 }
 
@@ -2369,14 +2743,29 @@ func runC17(c *lib.Ctx) {
 	if v, err := strconv.Atoi(os.Getenv("VERIF_C17_REPEAT")); err == nil && v > 1 {
 		repeat = v
 	}
+	if c.GenBroken != "" && repeat < 3 {
+		// an obligation over the regenerated structure of the primitives no longer checks: search a
+		// failing input harder (the sweep cells isolate the constructs the obligations are about)
+		repeat = 3
+		c.Ev.Coverage["witness_search_for_broken_obligation"] = c.GenBroken
+	}
+	// VERIF_C17_ONLY=<prefix> runs only the sweep cells whose name starts with the prefix and no
+	// composite programs (development aid; not used by the registered commands)
+	only := os.Getenv("VERIF_C17_ONLY")
 	for rep := 0; rep < repeat; rep++ {
 		for _, cs := range c17Cells() {
+			if only != "" && !strings.HasPrefix(cs.Cell, only) {
+				continue
+			}
 			for _, pr := range cs.Procs {
 				jobs = append(jobs, job{cs, pr, self, uint64(rep + 1)})
 			}
 		}
 	}
 	for _, cs := range c17Generate(c) {
+		if only != "" {
+			break
+		}
 		for _, pr := range cs.Procs {
 			jobs = append(jobs, job{cs, pr, self, c.Rng.U64()})
 		}
@@ -2435,7 +2824,24 @@ func runC17(c *lib.Ctx) {
 	results := make([]result, len(jobs))
 	var hangs, skipped atomic.Int32
 	var wg sync.WaitGroup
-	sem := make(chan struct{}, 4)
+	const slots = 4
+	sem := make(chan struct{}, slots)
+	var aloneMu sync.Mutex
+	c17Alone = func(f func()) {
+		// called from a job goroutine that holds one slot: give it back first (two jobs wanting to
+		// be alone must not wait for each other's slot), then take them all
+		<-sem
+		aloneMu.Lock()
+		for i := 0; i < slots; i++ {
+			sem <- struct{}{}
+		}
+		f()
+		for i := 0; i < slots; i++ {
+			<-sem
+		}
+		aloneMu.Unlock()
+		sem <- struct{}{}
+	}
 	for i := range jobs {
 		wg.Add(1)
 		sem <- struct{}{}
@@ -2463,6 +2869,7 @@ func runC17(c *lib.Ctx) {
 
 	validated, sampleNo := 0, 0
 	c.Ev.Coverage["skipped_after_hangs"] = int(skipped.Load())
+	c.Ev.Coverage["transient_outcomes_rerun_alone"] = int(c17Retried.Load())
 	for _, r := range results {
 		if r.d < 0 {
 			continue
@@ -2499,7 +2906,7 @@ func runC17(c *lib.Ctx) {
 				"program": p, "cell": r.j.cs.Cell, "gomaxprocs": r.j.procs, "race": r.j.cs.Race,
 				"input": c17Clip(p.source(false), 6000), "observed": c17Clip(v.Observed, 3000), "expected": v.Expected,
 				"expected_from": "model:conc checkers / sequential run",
-				"relies_on":     []string{"SlipVerif.Conc.exec_fifoOk", "SlipVerif.Conc.exec_mutexOk", "SlipVerif.Conc.exec_counterOk", "SlipVerif.Conc.no_lost_update"},
+				"relies_on":     []string{"SlipVerif.Conc.exec_fifoOk", "SlipVerif.Conc.exec_mutexOk", "SlipVerif.Conc.exec_counterOk", "SlipVerif.Conc.no_lost_update", "SlipVerif.Lin.linCheck_sound"},
 			})
 		}
 	}
